@@ -313,7 +313,14 @@ func ruleC04R2(c *Ctx) {
 		}
 		writes := c.callsTo(fn, func(f *ssa.Function) bool { return writeSyscalls(f) || len(c.callsTo(f, writeSyscalls)) > 0 })
 		closes := c.callsTo(fn, closeSyscalls)
-		if hit, _ := c.precedes(fn, callInstrSet(writes), instrSet(good), nil); hit != nil {
+		// the only way round the write is that there is nothing (left) to write: the emptiness test of the data being written
+		allowed := map[ssa.Value]bool{}
+		for _, p := range fn.Params {
+			if isSeqType(p.Type()) && !isStringType(p.Type()) {
+				allowed[p] = true
+			}
+		}
+		if hit, _ := c.precedes(fn, callInstrSet(writes), instrSet(good), edgeSet(emptinessGuardEdges(fn, allowed))); hit != nil {
 			okR, why = false, "the rename is reachable before the data was written"
 		}
 		if hit, _ := c.precedes(fn, callInstrSet(closes), instrSet(good), nil); hit != nil {
